@@ -6,7 +6,7 @@ sys.path.insert(0, os.path.join(ROOT, "engine"))
 
 BASE_NOTE = ("Every property file also carries computed closed-world facts about the current source (callee inventory of the functions it is about; for C12-C14, C16 the public surface and variable inventory). Trusted: Coq 8.16.1 kernel + vm_compute (closed finite facts only, no native_compute); the Go-AST translator tools/go2coq "
              "(regenerates coq/Gen from /repo every run); extraction (ExtrOcamlBasic only) + driver.ml; implrun + engine/*.py. "
-             "Modelled, not verified: SHA-256/512, HMAC, PBKDF2, x/text NFKD (contract LC1-LC3), math/big, io.ReadFull, strings, strconv, sync.Once. "
+             "Modelled, not verified: SHA-256/512, HMAC, PBKDF2, x/text NFKD (contract LC1-LC4, claimed on valid UTF-8; invalid UTF-8 only stays invalid), math/big, io.ReadFull, strings, strconv, sync.Once. "
              "No axioms (Print Assumptions: Closed under the global context).")
 
 P = {
@@ -27,7 +27,7 @@ P.update({
          "Coq proof (acceptance => valid sentence, exact accept count) + differential search with full last-word sweeps", "5 C03"),
  "C06": ("Theorems C06_newmnemonic, C06_read_full: for every read script (any fragmentation, zero-length reads, any error kind at any point, bytes alongside or not) the model of NewMnemonic (io.ReadAtLeast transcribed) returns the BIP39 encoding of the first 4n/3 delivered bytes with n words, or the empty string and the reader's error when fewer are delivered - by induction over the script. Differential through the verif swap hook: every failure point x kind x with/without bytes, 2-fragmentations, random fragmentations, bytewise and over-long readers; io.ReadFull itself against the transcription.",
          "Coq proof by induction over read scripts + fault enumeration of the implementation through the swap hook", "5 C06"),
- "C10": ("Theorems C10_same_nfkd, C10_valid_spellings, C10_nfkd_idempotent, C10_normalised_form: for every lib meeting the contract and every Language value, two strings with equal NFKD forms get the same verdict (inside xsafe even the same error); every spelling whose NFKD form is a valid sentence is accepted; NFKD (UAX #15 over the pinned table) is proved idempotent on valid UTF-8, so a string and its NFKD form are validated alike. The Gallina NFKD (UAX #15 over the pinned Unicode 15 table) is compared with norm.NFKD.String by the K stream. Differential: every list word in NFC/NFD/NFKC/full-width inside sentences, six separators that NFKD maps to U+0020, arbitrary Unicode in other normal forms.",
+ "C10": ("Theorems C10_same_nfkd, C10_valid_spellings, C10_nfkd_idempotent, C10_normalised_form: for every lib meeting the contract and every Language value, two valid UTF-8 strings with equal NFKD forms get the same verdict (inside xsafe even the same error); every spelling whose NFKD form is a valid sentence is accepted; NFKD (UAX #15 over the pinned table) is proved idempotent on valid UTF-8, so a string and its NFKD form are validated alike. The Gallina NFKD (UAX #15 over the pinned Unicode 15 table) is compared with norm.NFKD.String by the K stream. Differential: every list word in NFC/NFD/NFKC/full-width inside sentences, six separators that NFKD maps to U+0020, arbitrary Unicode in other normal forms.",
          "Coq proof over an explicit library contract + differential correspondence on equivalent spellings", "5 C10"),
  "C15": ("Theorems C15_classification, C15_count, C15_outside_xsafe, C15_nil_only_valid: the model's result is the specification's classifier (count -> ErrWordLen, else first unknown token and its position, else checksum -> ErrChecksumIncorrect, else nil) on the tokens of the NFKD form, for all xsafe strings; ErrWordLen for every string with a wrong count; unknown-word error outside xsafe. Sentinels and gate are regenerated from the source. Differential: single-defect sentences per language x count, errors.Is against each sentinel, token and position parsed from the message.",
          "Coq proof (validator = spec classifier) + differential correspondence on single-defect sentences", "5 C15"),
@@ -48,7 +48,7 @@ P.update({
 })
 
 P.update({
- "C04": ("Theorems C04_seed, C04_salt_prefix, C04_length, C04_no_state: for every normaliser meeting the measured contract and ALL byte strings m, p whose NFKD forms have no run of more than 30 modifiers (xsafe), the model of MnemonicToSeed equals PBKDF2-HMAC-SHA512 (executable Gallina SHA-512/HMAC/PBKDF2 per FIPS 180-4, RFC 2104, RFC 8018) over NFKD(m) and \"mnemonic\"||NFKD(p) with the iteration count, key length, hash and prefix literals regenerated from the source; NFKD(\"mnemonic\"+p) = \"mnemonic\"||NFKD(p) also for passphrases starting with combining marks. Outside xsafe the statement is false of the real dependency: known finding F3 (witness replayed every run, KNOWN-FINDING line). Differential: implementation seed vs hashlib PBKDF2 over the (password, salt) derived with the Coq NFKD; key lengths around the 128-byte block; the Gallina crypto vs the Go libraries; a full 2048-iteration seed evaluated by the extraction; K stream for the contract.",
+ "C04": ("Theorems C04_seed, C04_salt_prefix, C04_length, C04_no_state: for every normaliser meeting the measured contract and ALL valid UTF-8 strings m, p whose NFKD forms have no run of more than 30 modifiers (xsafe), the model of MnemonicToSeed equals PBKDF2-HMAC-SHA512 (executable Gallina SHA-512/HMAC/PBKDF2 per FIPS 180-4, RFC 2104, RFC 8018) over NFKD(m) and \"mnemonic\"||NFKD(p) with the iteration count, key length, hash and prefix literals regenerated from the source; NFKD(\"mnemonic\"+p) = \"mnemonic\"||NFKD(p) also for passphrases starting with combining marks. Outside xsafe the statement is false of the real dependency: known finding F3 (witness replayed every run, KNOWN-FINDING line). Differential: implementation seed vs hashlib PBKDF2 over the (password, salt) derived with the Coq NFKD; key lengths around the 128-byte block; the Gallina crypto vs the Go libraries; a full 2048-iteration seed evaluated by the extraction; K stream for the contract.",
          "Coq proof over an explicit library contract (all inputs in the stated domain) + differential correspondence; known finding outside the domain", "5 C04"),
  "C11": ("Theorems C11_same_nfkd, C11_separators: equal NFKD forms of both components give equal seeds inside xsafe, for every normaliser meeting the contract; U+3000 vs U+0020 between list words in particular. Outside xsafe the real dependency violates it: known finding F3 (witness pair replayed every run). Differential: every list word in its other normal forms inside sentences, six equivalent separators, passphrases from compatibility/combining-heavy pools, equality of NFKD forms decided by the Coq NFKD.",
          "Coq proof over an explicit library contract + differential correspondence on equivalent spellings; known finding outside the domain", "5 C11"),
